@@ -143,6 +143,7 @@ func (w *Proxy) setupH2Client(ci int, reqIdxP *int) {
 	seg := p.SegMode
 	t := time.Duration(ch.Pick("work", "connat", 5)) * time.Millisecond
 	var sendAt []time.Duration
+	afterBad := false
 	for k := 0; k < p.ReqsPerConn; k++ {
 		reqIdx++
 		t += pickFrom(ch, "work", "gap", []time.Duration{0, 0, time.Millisecond, 10 * time.Millisecond, 100 * time.Millisecond})
@@ -200,6 +201,22 @@ func (w *Proxy) setupH2Client(ci int, reqIdxP *int) {
 				}
 				m.Body = body
 			}
+		}
+		if afterBad {
+			// (the fields a refused header block introduced into the dynamic table are used again)
+			m.Headers = append(m.Headers, peers.KV{K: "x-after-bad", V: "same-value-every-time"}, peers.KV{K: "x-after-bad-2", V: "another-value-that-is-indexed"})
+		}
+		if (w.Prop == "C18" || w.Prop == "C01") && !p.Faults && p.ShutdownMs == 0 && k < p.ReqsPerConn-1 && !afterBad && p.H2Malformed && ch.Chance("work", "illegalhdr", 1, 3) {
+			// a header block with a malformed field in its middle (RFC 7540 8.1.2: a pseudo-header behind a regular
+			// field, a NUL in a value) and new, indexable fields behind it: the request is refused, the connection
+			// lives on, and both sides' dynamic tables must still agree on what the block added
+			m.Method, m.Body = "GET", nil
+			r.Method = "GET"
+			bad := pickFrom(ch, "work", "illegalhdrkind", []peers.KV{{K: ":late-pseudo", V: "illegal"}, {K: "x-bad-value", V: "nul\x00byte"}})
+			m.Headers = append(m.Headers, bad, peers.KV{K: "x-after-bad", V: "same-value-every-time"}, peers.KV{K: "x-after-bad-2", V: "another-value-that-is-indexed"})
+			r.Extra["illegal_header"] = bad.K
+			afterBad = true
+			s.Fault("w:h2_malformed_header_field")
 		}
 		if w.P.H2Trailers && len(m.Body) > 0 && ch.Chance("work", "reqtrailers", 1, 3) {
 			m.Trailers = []peers.KV{{K: "x-req-trailer", V: "t-" + tok}, {K: "x-checksum", V: fmt.Sprint(len(m.Body))}}
@@ -299,7 +316,7 @@ func sameKVs(want, got []peers.KV, ignore func(k string) bool) string {
 
 func h2Ignore(k string) bool {
 	switch k {
-	case "host", "content-length", "x-mosn-host", "x-mosn-method", "x-mosn-path", "x-mosn-querystring", "date", "server", "x-host", "trailer" /* the announcement of trailing fields is the hop's own */:
+	case "host", "content-length", "x-mosn-host", "x-mosn-method", "x-mosn-path", "x-mosn-querystring", "date", "server", "x-host", "trailer" /* the announcement of trailing fields is the hop's own */ :
 		return true
 	}
 	return false
@@ -315,6 +332,14 @@ func (w *Proxy) checkC18() {
 	}
 	for _, r := range w.H.Reqs {
 		if r.Proto != "http2" || r.Dropped || r.SentAt == 0 {
+			continue
+		}
+		if r.Extra["illegal_header"] != "" {
+			// refused by a conforming receiver; what matters is what happens to the requests around it
+			w.Stats["h2_malformed_requests"]++
+			if len(r.Upstream) > 0 {
+				w.Stats["h2_malformed_requests_forwarded"]++
+			}
 			continue
 		}
 		w.Stats["h2_requests_judged"]++
@@ -373,7 +398,6 @@ func (w *Proxy) h2ends() []*peers.H2End {
 	}
 	return es
 }
-
 
 // ---- C01 across HTTP versions: an HTTP/1 listener in front of an HTTP/2 cluster and the reverse ----
 
